@@ -74,6 +74,7 @@ type Contract struct {
 	EnsuresP   []Clause
 	PanicsIff  *Clause
 	MayPanic   *Clause
+	LocalNames  []string // "locals": the local variables of the function, in declaration order, as the contract names them
 	ParamNames  []string // "params": the names this contract uses for receiver and parameters, by position
 	ResultNames []string // "results": the names this contract uses for named results, by position
 	Modifies   []string
@@ -438,6 +439,13 @@ func (cs *Contracts) parseFile(path, pkg string) error {
 				return err
 			}
 			cur.ResultNames = strings.Fields(rest)
+		case "locals":
+			// locals <v1> <v2> ...   the function's local variables in declaration order under the names
+			// the contract uses: a clause keeps working when the code renames a local
+			if err := needCur(); err != nil {
+				return err
+			}
+			cur.LocalNames = strings.Fields(rest)
 		case "mode":
 			if err := needCur(); err != nil {
 				if curLemma != nil {
